@@ -74,7 +74,7 @@ def run(tier, seed):
         "bounds": {"H": H, "D": D, "base_models": len(its)},
         "assumptions": [
             "idle-worker clause asks for maximality of the greedy allocation only (not a maximum matching)",
-            "next-step-finish and leave-NONE clauses are judged on dependencies that held before the update; same-update chains are left to C09",
+            "next-step-finish and leave-NONE clauses are judged on the state right after the step's update (predecessors finishing in the same update count)",
         ],
     }
     if col.checks["c06.idle-worker"] == 0 or col.checks["c06.none"] == 0:
